@@ -106,8 +106,18 @@ def mentions_seq_ops(e, _seen=None):
         return mentions_seq_ops(e.body(), seen)
     if z3.is_app(e):
         if e.decl().kind() in _SEQ_OPS:
+            if e.decl().kind() == z3.Z3_OP_SEQ_CONCAT and _is_seq_literal(e):
+                return False     # a constant octet string
             return True
         return any(mentions_seq_ops(c, seen) for c in e.children())
+    return False
+
+
+def _is_seq_literal(e):
+    if e.decl().kind() == z3.Z3_OP_SEQ_UNIT:
+        return z3.is_int_value(e.children()[0])
+    if e.decl().kind() == z3.Z3_OP_SEQ_CONCAT:
+        return all(_is_seq_literal(c) for c in e.children())
     return False
 
 
@@ -221,6 +231,7 @@ class CoreMixin:
         self.solver_s = 0.0
         self.notes = []
         self.queries = 0
+        self.route_hint = {}
 
     # ---- path lifecycle ---------------------------------------------------
     def begin_path(self, prefix):
@@ -382,14 +393,16 @@ class CoreMixin:
             if assume_after:
                 self.assume(goal)
             return
-        if self.seq_risky and not mentions_seq_ops(goal):
+        hint = self.route_hint.get(oid)
+        if self.seq_risky and not mentions_seq_ops(goal) and hint != 'cli':
             # ... or the hypotheses without sequence operations (quantified ones included)
             t0 = time.time()
             s3 = z3.Solver()
-            s3.set('timeout', self.check_timeout_ms)
+            lim3 = min(self.check_timeout_ms, 4000)
+            s3.set('timeout', lim3)
             s3.add(self.noseq)
             s3.add(z3.Not(goal))
-            r3 = hard_check(s3, limit_ms=self.check_timeout_ms)
+            r3 = hard_check(s3, limit_ms=lim3)
             d3 = time.time() - t0
             self.solver_s += d3
             self.queries += 1
@@ -409,6 +422,7 @@ class CoreMixin:
             self.solver_s += dt
             self.queries += 1
             if verdict == 'unsat':
+                self.route_hint[oid] = 'cli'    # same clause on later paths: go to the external solver directly
                 rec.results.append(('unsat', dt, None, self.path_no, who))
             elif verdict == 'sat':
                 rec.results.append(('sat', dt, {'__no_model__': 'external solver %s answered sat' % who}, self.path_no, who))
@@ -599,6 +613,12 @@ class CoreMixin:
                 out[name] = str(m.eval(v.z, model_completion=True))[:400]
             except Exception:
                 pass
+        sm = getattr(self, 'structured_model', None)
+        if sm is not None:
+            try:
+                out['__state__'] = sm(m)
+            except Exception as err:  # noqa
+                out['__state__'] = {'error': str(err)[:200]}
         return out
 
     # ---- well-formedness of references read from the heap -----------------
